@@ -272,6 +272,13 @@ def stateChecks (h : HCtx) (o : Obs) : CM Unit := do
     count "C13" "endtimes-len"
     if v.a.type == .batch then count "C16" "matchedlen-flags"
     if v.a.type == .fixed && (v.a.status == .standby || v.a.status == .started) then count "C06" "remainder"
+    -- C16 (Props/C16.C16_fixed_flag): a fixed-price bid is flagged exactly when it buys at least
+    -- one coin — which is what it receives at settlement (C06_close_allocates_accepted_bids)
+    if v.a.type == .fixed then
+      count "C16" "flags:fixed" v.bids.length
+      for b in v.bids do
+        if b.matched != decide (b.toSelling v.a.payDenom > 0) then
+          viol "C16" "flags:fixed" s!"auction {i} bid {b.id}: flagged {b.matched} but it buys {b.toSelling v.a.payDenom} coins"
     if v.a.status == .vesting || v.a.status == .finished || !v.vqs.isEmpty then count "C09" "vq-shape"
     for (field, detail) in checkViewWF i v do
       let (c, sig) := wfSig field
@@ -508,6 +515,10 @@ def checkCancel (p c : Obs) : CM Unit := do
         viol "C12" "cancel-unauthorised" s!"auction {a} of u{pv.a.auctioneer} cancelled by u{signer}"
       if pv.a.status != .standby then
         viol "C12" "cancel-late" s!"auction {a} cancelled from status {pv.a.status.code}"
+      -- the last block was at or after the start time: the auction ought to be open by now (C08),
+      -- so this cancel comes after the opening the users were promised
+      if pv.a.status == .standby && decide (pv.a.startTime ≤ p.s.now) then
+        viol "C12" "cancel-after-start" s!"auction {a} cancelled at block time {p.s.now}, start time {pv.a.startTime}"
       if cv.a.status != .cancelled then
         viol "C12" "cancel-status" s!"auction {a} has status {cv.a.status.code} after a successful cancel"
       if c.s.bank (.sell a) sd ≠ 0 then
@@ -1010,7 +1021,7 @@ def knownCounts : List (String × String) :=
    ("C12", "cancel"),
    ("C13", "endtimes-len"), ("C13", "extend-shape"), ("C13", "extend-decision"),
    ("C15", "key-record"), ("C15", "genesis"),
-   ("C16", "matchedlen-flags"), ("C16", "flags"), ("C16", "matched-price"),
+   ("C16", "matchedlen-flags"), ("C16", "flags"), ("C16", "flags:fixed"), ("C16", "matched-price"),
    ("C17", "hook"), ("C17", "hook-veto"),
    ("C18", "reject-changed-state"),
    ("C19", "key-record"), ("C19", "view-wf"), ("C19", "bidseq"), ("C19", "terms"), ("C19", "frame")]
